@@ -20,9 +20,11 @@ from gen_bins import blocks_from_widths, names_for, table_from_blocks
 # --------------------------------------------------------------------- oracle
 
 
-def find_collections(path):
-    """every group of the file that holds pixels + indexes (+ bins): found by walking the
-    HDF5 tree directly, not through cooler.fileops"""
+def find_collections(path, marked_only=False):
+    """every group of the file that carries the format attribute HDF5::Cooler (written last by
+    write_info) or — unless marked_only, which is used after a producer crashed or timed out and
+    may have left a half-written group behind — holds a pixels group.  Found by walking the HDF5
+    tree directly, not through cooler.fileops"""
     out = []
     with h5py.File(path, "r") as f:
         def is_coll(g):
@@ -31,7 +33,9 @@ def find_collections(path):
             fmt = g.attrs.get("format", None)
             if isinstance(fmt, bytes):
                 fmt = fmt.decode()
-            return fmt == "HDF5::Cooler" or ("pixels" in g and isinstance(g["pixels"], h5py.Group))
+            if fmt == "HDF5::Cooler":
+                return True
+            return (not marked_only) and "pixels" in g and isinstance(g["pixels"], h5py.Group)
         if is_coll(f):
             out.append("/")
 
